@@ -16,6 +16,9 @@ import common
 def main():
     r = common.run_tlc("TwoRuns.tla", "TwoRuns.cfg", workers=2, coverage=False, cwd=os.path.join(common.SPEC, "extra"))
     print("TLC on TwoRuns.cfg: invariant violated = %s (expected GlobalUnique)" % r.violated)
+    r2 = common.run_tlc("TwoRuns.tla", "TwoRunsLocked.cfg", workers=2, coverage=False, cwd=os.path.join(common.SPEC, "extra"))
+    print("TLC on TwoRunsLocked.cfg (advisory lock held for the whole run): violated = %s, %d distinct states (expected none)" % (
+        r2.violated, r2.distinct))
     binary = common.build_breadlog()
     so = common.build_shim()
     P = bl.Project(tag="two")
